@@ -14,5 +14,44 @@ def P(pid, explanation, not_decided):
     PROPS[pid] = dict(explanation=explanation, not_decided=not_decided)
 
 
-for i in range(1, 21):
-    P(f"C{i:02d}", "structural clauses decided by static analysis of MIR facts (see rules list)", [])
+
+P('C01', "TCP byte-stream integrity, structural clauses: FIN consumed only behind the no-hole and not-truncated guards (value-split abstract interpretation); one placement of received payload in assembler and rx ring; tx offset = SEG.SEQ - SND.UNA; SND.UNA only moves within [SND.UNA, SND.NXT]; sequence numbers compared modularly; ring buffer read position never rewound while data is parked; reset() re-initialises every connection-scoped field.",
+  ["stream equality under arbitrary loss/duplication/reordering schedules (a behavioural property over histories)", "correctness of the Assembler's range arithmetic beyond R15.x"])
+P('C02', "TCP liveness, structural clauses: every armed timer variant maps to a finite deadline; poll_at mirrors every predicate that makes dispatch transmit; after a successful emit of a sequence-occupying segment the retransmission timer is armed; a pending fast retransmit survives a failed emit; fast retransmit only with data to resend; RTO into a closed window keeps a probe timer; FIN not gated by the peer window; cwnd >= 1 MSS; deadlines never combined with Option's derived ordering or Option::and.",
+  ["eventual delivery (a liveness property over infinite executions)", "numeric adequacy of RTO/back-off values"])
+P('C03', "Ingress robustness, structural contributors: empty-frame guard; no unwrap of a parse result in any iface body reachable from socket_ingress; unchecked views on the ingress path are write-only or read through a parser that calls check_len first; every checked-view accessor stays inside what check_len guarantees (interval comparison, per message type); parser loops have progress witnesses; self-length slice cuts are guarded; 6LoWPAN frame-derived subtractions are guarded and the announced datagram size is lower-bounded; fragmentation-buffer admission counts the header.",
+  ["absence of every index/arithmetic panic on the whole ingress path (needs a relational numeric analysis of all slice operations: 171 local slice cuts, 17 decided by the simple guard matcher)", "termination of Interface::poll as a whole", "the ieee802154::Frame and rpl::options::Packet views (value-dependent layouts) except R07.9"])
+P('C04', "TCP receive window, structural clauses: emitted ACK = RCV.NXT; payload trimmed to the max/min window shape and placed once; RCV.NXT only advanced by dequeued data / accepted FIN / SYN; recorded advertised edge equals what was sent; acceptability strict at the right edge; window-scale option clamped and the local shift dropped when the peer offers none.",
+  ["that no byte outside the advertised window is ever accepted, for all numeric values (relies on the shape clauses plus modular comparison)"])
+P('C05', "TCP sender limits, structural clauses: every segment size is clamped by peer window, effective MSS and (outside probes/fast retransmit) cwnd; remote_mss lower clamp; SYN carries the unscaled window; FIN only at the end of queued data; payload is a view of the tx ring; SND.UNA store guarded by both ACK acceptability tests.",
+  ["numeric window arithmetic under wrap-around for all values"])
+P('C06', "Wire writer/reader agreement: byte cover of 156 getter/setter pairs; bit provenance of 115 pairs; whole-emit bit provenance (no stale or undefined header bits); parse/emit field pairing for 27 Repr types; emit cursors accumulate and no position is written twice; IPHC field order and hop-limit tables; NHC UDP port forms; TCP end-of-list fill.",
+  ["round-trip equality for every Repr value: option lists built through iterator adaptors (seed C06-s3 is not caught), DNS names, DHCP options, IPHC address-mode tables", "emit never panics on a buffer of the declared length (needs buffer_len/emit extent relation)"])
+P('C07', "Checked views: every accessor of 22 view types reads within what check_len guarantees on its Ok paths, per message type where the layout is type-dependent; option/record iterators make progress; SACK validator and reader use the same stride; length-prefixed slice cuts are behind a comparison with the slice length; the ieee802154 validator reads the security control byte only after checking it exists.",
+  ["ieee802154::Frame and (cfg B) rpl::options::Packet accessors in general (value-dependent layout beyond the partition engine)", "the pretty-printer", "Repr::parse bodies beyond the accessors they call"])
+P('C08', "Checksums: fill_checksum is the last header write on every emit path (and after every later header change); every parse accepts only via !rx() or verify_checksum; the 32->16 bit fold keeps the value congruent mod 0xffff and within 16 bits (abstract evaluation); IPv4 header checksum covers header_len() octets; device checksum capabilities reach every ingress parser.",
+  ["the arithmetic of checksum::data / combine over all inputs", "two recorded findings: UDP zero checksum accepted for IPv6, NHC UDP parse ignores caps"])
+P('C09', "Datagram sockets: dequeue only through dequeue_with and the closure returns emit's result; process only behind accepts; first matching UDP socket only; Truncated guard dominates the copy; metadata is exactly the packet's own addresses; PacketBuffer reset/declined-callback/sibling rules; fragmenter never overwritten while busy, re-checked for every socket of an egress pass; of_packet total.",
+  ["exactly-once FIFO delivery over all operation sequences"])
+P('C10', "Egress frames: frame length = buffer_len of the emitted reprs; unfragmented transmit only behind total <= ip_mtu (IPv4, IPv6) / <= 125 (6LoWPAN); fragment sizes multiples of 8; fragmentation-buffer admission strict and header-inclusive; reply source = received destination only behind unicast guards; TCP option area filled; no stale header bits; checksums last.",
+  ["field-level well-formedness of every frame in every scenario"])
+P('C11', "Ingress filtering: hardware and IP destination/source filters cut every path to protocol processing; socket process only behind accepts; ICMP errors / RSTs only behind unicast guards; ICMP sockets compare the bound address with the packet's own destination; neighbor cache filled/refreshed only behind validation; reset() clears the listen endpoint.",
+  ["two recorded findings (ICMPv6 Parameter Problem to multicast destinations)"])
+P('C12', "IPv4 fragmentation/reassembly: single fragmenter started only when idle; fragment size rounded to 8; MF exactly when bytes remain; reassembly key = (id, src, dst, proto); delivery only when total known and front contiguous; slots freed only through reset() which clears the tracker; same identification on all fragments.",
+  ["byte equality of reassembled datagrams over all arrival orders"])
+P('C13', "poll_at consistency: per-socket poll_at reads every deadline its dispatch compares; Meta::poll_at mirrors egress_permitted; busy fragmenter => immediate deadline and a finished one is reset; SLAAC deadline only while a solicitation can be sent; failed dispatch silences the socket; timers fire at the reported instant (>=); DHCP bound-state deadline clamped by expiry.",
+  ["that a poll at the reported instant always makes progress, for all states (behavioural)"])
+P('C14', "Ring/packet buffers: every growth of length is behind a free-space guard and every shrink behind a length guard; contiguous accessors apply all clamps; a declined callback changes nothing; read position not rewound while data is parked; reset clears both rings; both enqueue interfaces take the same strict wrap decision.",
+  ["equivalence with a FIFO queue model over all operation sequences"])
+P('C15', "Assembler: a refused insertion writes nothing before returning Err; clear()/empty insertion; the guaranteed-success path is exactly the offset-0 instance of add()'s allocating test; the array shifts are complete (copy step, range, cleared slot).",
+  ["union/coalescing semantics of add() (range arithmetic)"])
+P('C16', "Neighbor/route resolution: nothing handed to the device before lookup_hardware_addr succeeded; discovery only when neither Found nor RateLimited and always followed by limit_rate; cache filled only by ARP/NDISC handlers behind validation and refreshed only by the same hardware address; lifetimes 60 s / 1 s; longest-prefix unexpired route; failing emit writes no TCP sequence state.",
+  ["timing behaviour over histories"])
+P('C17', "TCP state machine: the static transition relation (abstract interpretation per state and control) is a subset of the RFC 9293 relation; state stored only in set_state/reset; ESTABLISHED behind ack == ISS+1; FIN-acknowledged flag discipline; RST only in window (strict right edge) or exact handshake ack; TIME-WAIT 10 s armed on every entry and fires at the deadline; reset() table.",
+  ["that each transition is caused by exactly the prescribed event for all numeric inputs (guards are checked structurally)"])
+P('C18', "DHCPv4 client: lease only from an ACK with matching hardware address / xid, server id, contiguous mask, unicast address; state relation; expires_at = now + min(lease, max); bound-state deadline clamped; nothing sent after expiry; a new lease rewrites all lease fields and clears rebinding; xid/retry updated after emit.",
+  ["timing of renew/rebind over executions"])
+P('C19', "DNS client: completion only from a response matching port, txid, type, name, opcode/response bit/one question; name equality ends together; server/port filter; label iterators drive every name loop; self-length slice cuts guarded; back-off doubles and fail-over re-arms the timeout.",
+  ["resolution results for all response contents"])
+P('C20', "6LoWPAN: sent_bytes and datagram_offset advance by the bytes copied on every path; sizes multiples of 8; offset units agree between sender and receiver; datagram_size = payload + 40, lower-bounded on receipt; unfragmented frames fit 125 octets MAC header included; IPHC order / hop-limit tables / NHC port forms agree; fragmenter busy guard; reassembly reset.",
+  ["byte equality of decompressed datagrams over all address modes / sizes / orders (IPHC address-mode tables are not cross-checked)"])
